@@ -358,6 +358,14 @@ static void c19_value(Case& cs) {
     else { cp = new CdnsBlock(bp, 0); for (unsigned i = 0; i < 3; i++) { ContentOp o = gen_op(c, pools, tc, 1000 + i); apply_op(*cp, o, nullptr); } *cp = *src; }
     copy.reset(cp);
   }
+  // reader-returned blocks: what the generic accessors deliver from the second block must be what the file holds
+  // (independent interpretation), whatever happens to the source afterwards - checked again after the source's fate
+  std::string file_dump;
+  if (via_reader) {
+    std::string bytes; read_file(cs.scratch + "/c19file", bytes);
+    M::FileM fm; cdnsref::Report rep;
+    if (cdnsref::interpret(bytes, fm, rep) && rep.ok() && !fm.blocks.empty()) file_dump = M::dump_block(fm.blocks[0]);
+  }
   std::string copy_obs0 = observe(*copy, cs.scratch);
   VF_CHECK(copy_obs0 == src_obs_before, "sig=c19.copy_incomplete the second block does not hold the source's content : " << desc << "\n--- source\n" << src_obs_before.substr(0, 1200) << "--- copy\n" << copy_obs0.substr(0, 1200));
 
@@ -378,6 +386,11 @@ static void c19_value(Case& cs) {
     VF_CHECK(now == copy_obs0, "sig=c19.copy_affected_by_source changing the source changed the copy : " << desc);
   }
 
+  if (via_reader && !file_dump.empty()) {
+    CdnsBlockRead* cr = static_cast<CdnsBlockRead*>(copy.get());
+    std::string got = M::dump_block(adapt::model_block(*cr));
+    VF_CHECK(got == file_dump, "sig=c19.read_generic generic records read from the second block differ from the file content after the source was " << (fate == 0 ? "left alone" : fate == 1 ? "modified" : fate == 2 ? "cleared" : "destroyed") << " : " << desc << "\n--- file\n" << file_dump.substr(0, 1200) << "--- copy\n" << got.substr(0, 1200));
+  }
   // ---- operations on the copy, mirrored on a block rebuilt from scratch
   CdnsBlock ref(bp, 0);
   std::vector<index_t> ref_idx;
@@ -406,8 +419,9 @@ static void c19_value(Case& cs) {
   } else {
     // reader-returned blocks: reading the generic records from the copy gives what the source gave
     CdnsBlockRead* cr = static_cast<CdnsBlockRead*>(copy.get());
+    // the records added to the copy after the first read-out are delivered as well (the read cursors continue); memory safety is the oracle here
     M::BlockM bm = adapt::model_block(*cr);
-    VF_CHECK(bm.qrs.size() == cr->get_qr_count() && bm.mms.size() == cr->get_mm_count(), "sig=c19.read_generic generic reads on a copied reader block returned " << bm.qrs.size() << " q/r of " << cr->get_qr_count() << " : " << desc);
+    (void)bm;
   }
   // changes to the copy never affect the source
   if (src && fate == 0 && !moved_from) {
